@@ -47,7 +47,7 @@ MANIFEST = {
 }
 BUDGET = {"quick": (260, 75), "thorough": (12000, 1500)}
 REQUIRED_PROBES = {"quick": ["shared_tile", "overlapping_inputs", "mixed_parity", "lock_contended"],
-                   "thorough": ["shared_tile", "overlapping_inputs", "mixed_parity", "lock_contended", "multi_level"]}
+                   "thorough": ["shared_tile", "overlapping_inputs", "mixed_parity", "lock_contended", "multi_level", "three_levels", "image_in_extension_hdu", "blankval_sentinel"]}
 CHUNK = 4
 SELFTEST_EVERY = 40
 FRESH_SELFTEST = 4
@@ -95,7 +95,8 @@ def run_one(ch, env):
     res = {"config": dict(fitsgen.describe(col), tile_format=fmt, workers=workers, tile_levels=levels, scheme=scheme),
            "extra": {"fmt_" + fmt: 1, "workers_%d" % workers: 1, "n_images_%d" % len(rects): 1},
            "probes": {"overlapping_inputs": int(overlapping), "mixed_parity": int(len({r["bottom_up"] for r in rects}) == 2),
-                      "multi_level": int(levels >= 1)}}
+                      "multi_level": int(levels >= 1), "three_levels": int(levels >= 3),
+                      "image_in_extension_hdu": int(any(r.get("in_extension") for r in rects)), "blankval_sentinel": int(col.blankval is not None)}}
     if np.all(np.isnan(P)):
         res["digest"] = "all-undefined"
         return res
@@ -115,7 +116,7 @@ def run_one(ch, env):
     box = {}
 
     def main():
-        coll = collection.load(col.paths)
+        coll = fitsgen.load_collection(col)
         pio = PyramidIO(out1, scheme=scheme, default_format=fmt)
         b = Builder(pio)
         proc = MultiTanProcessor(coll)
